@@ -143,6 +143,7 @@ func TestC04(t *testing.T) {
 	defer c.Flush(t)
 	fs := hx.LoadFindings()
 	resolveLedgerFindings(fs, c)
+	regressFixed(t, c, fs, "C04")
 	c.Check(t, "ledger-machine", hx.N(1500, 12000), func(cs *hx.Case) {
 		runLedgerCase(cs, fs, 30)
 	})
